@@ -1413,7 +1413,14 @@ fn designator_to_asg(
             context.insert_error(NotImplementedError, &expr);
             None
         }
-        None => None,
+        None => {
+            // A designator that is written, but is not an expression of the typed AST (eg. the
+            // empty tuple in `int[()] x;`), is not the same as no designator at all.
+            if let Some(designator) = designator {
+                context.insert_error(InvalidDesignatorError, designator);
+            }
+            None
+        }
     }
 }
 
